@@ -350,7 +350,7 @@ PROPS = {
     "C04": dict(
         props_file="Props/C04.v",
         families=[("core", NONE, 150), ("fault", NONE, 150)],
-        projection="C04", monitors=["C04"],
+        projection="C04", monitors=["C04", "C06"],
     ),
     "C05": dict(
         props_file="Props/C05.v",
